@@ -369,6 +369,12 @@ func (c *Ctx) checkErrBranch(rule string, fn *ssa.Function, construct string, er
 				et := tb.Of(rv[errIdx])
 				if isNilConst(rv[errIdx]) {
 					report(construct, p.InstrPos(t), "on the branch where this call failed the function returns a nil error")
+				} else if call, isCall := rv[errIdx].(*ssa.Call); isCall && rv[errIdx] != errVal && callHasArg(call, errVal) && termMentions(et, errVal, errS) && call.Call.StaticCallee() != nil && (p.InRepo(call.Call.StaticCallee()) || p.InCtl(call.Call.StaticCallee())) && call.Call.StaticCallee().Blocks != nil {
+					// the failure is handed to a helper of the repository and the helper's result is returned:
+					// the helper has to give back an error whenever it is given one
+					if ok, why := wrapperNonNil(call.Call.StaticCallee(), 0); !ok {
+						report(construct, p.InstrPos(t), "on the branch where this call failed the function returns the result of "+p.ShortFn(call.Call.StaticCallee())+", which can be nil although it was handed the failure ("+why+"): the failure is reported as success")
+					}
 				} else if !termMentions(et, errVal, errS) {
 					// fail-closed mode: a freshly built error (fmt.Errorf / errors.New) is certainly non-nil
 					fresh := et.Op == "Call" && (et.Name == "fmt.Errorf" || et.Name == "errors.New")
@@ -608,6 +614,78 @@ func valueUses(v, target ssa.Value, d int) bool {
 			if e != v && valueUses(e, target, d+1) {
 				return true
 			}
+		}
+	}
+	return false
+}
+
+// wrapperNonNil: every error f returns is certainly non-nil provided its error-typed
+// parameters are (f wraps, annotates or passes on a failure it was handed).
+func wrapperNonNil(f *ssa.Function, depth int) (bool, string) {
+	idx, ok := returnsError(f.Signature)
+	if !ok {
+		return false, "no error result"
+	}
+	var nonNil func(v ssa.Value, d int, seen map[ssa.Value]bool) (bool, string)
+	nonNil = func(v ssa.Value, d int, seen map[ssa.Value]bool) (bool, string) {
+		if seen[v] {
+			return true, ""
+		}
+		seen[v] = true
+		switch x := v.(type) {
+		case *ssa.Parameter:
+			if typeShort(x.Type()) == "error" {
+				return true, ""
+			}
+			return false, "parameter " + x.Name() + " is not an error"
+		case *ssa.Const:
+			if x.IsNil() {
+				return false, "a nil error is returned on some path"
+			}
+			return true, ""
+		case *ssa.MakeInterface:
+			if isNilConst(x.X) {
+				return false, "a typed nil is returned"
+			}
+			return true, ""
+		case *ssa.Phi:
+			for _, e := range x.Edges {
+				if ok, why := nonNil(e, d, seen); !ok {
+					return false, why
+				}
+			}
+			return true, ""
+		case *ssa.Call:
+			switch calleeName(&x.Call) {
+			case "fmt.Errorf", "errors.New":
+				return true, ""
+			case "errors.Join", "github.com/hashicorp/go-multierror.Append":
+				return true, "" // joins what it was given; the caller's term check established that the failure is among it
+			}
+			if sc := x.Call.StaticCallee(); sc != nil && sc.Blocks != nil && d < 2 && sc != f {
+				return wrapperNonNil(sc, d+1)
+			}
+			return false, "the result of " + calleeName(&x.Call) + " is returned"
+		}
+		return false, fmt.Sprintf("%T value returned", v)
+	}
+	for _, ret := range Returns(f) {
+		rv := RetVals(ret)
+		if idx >= len(rv) {
+			continue
+		}
+		if ok, why := nonNil(rv[idx], depth, map[ssa.Value]bool{}); !ok {
+			return false, why
+		}
+	}
+	return true, ""
+}
+
+// callHasArg: v is (a conversion of) one of the call's arguments.
+func callHasArg(call *ssa.Call, v ssa.Value) bool {
+	for _, a := range call.Call.Args {
+		if a == v || stripConv(a) == v {
+			return true
 		}
 	}
 	return false
